@@ -19,6 +19,14 @@ pub fn gen_component(rng: &mut Rng) -> u64 {
         11 => (1u64 << 32) - 1 + rng.below(3),
         12 => MAX_SAFE_INTEGER - 1,
         13 => MAX_SAFE_INTEGER,
+        14 if rng.coin() => {
+            let n = *rng.pick(SPECIAL_NUMS);
+            if n <= MAX_SAFE_INTEGER {
+                n
+            } else {
+                n % (MAX_SAFE_INTEGER + 1)
+            }
+        }
         14 => rng.range(1, MAX_SAFE_INTEGER),
         _ => rng.range(0, 9),
     }
@@ -48,6 +56,20 @@ const MIXED_IDS: &[&str] = &[
     "rc1", "1a", "a1", "0a", "007a", "1-2", "a-b", "beta-2", "2-migration", "0x10", "1e5", "1E5",
     "00a", "0-0", "x86-64", "sha-5114f85", "exp-sha-5114f85",
 ];
+/// Words and shapes that mean something to *other* parsers (floats, booleans, hex, exponents):
+/// only relevant if a change routes identifier classification or printing through one of them.
+const WORD_IDS: &[&str] = &[
+    "Infinity", "infinity", "inf", "NaN", "nan", "true", "false", "null", "undefined", "e", "E", "e10",
+    "0e0", "1e10", "2E5", "1e-5", "0x1F", "0b101", "0o17", "1_000", "i", "u64", "f64", "T", "Z", "latest",
+    "next", "LATEST", "nightly", "final",
+];
+/// Numbers with special bit patterns or digit counts.
+const SPECIAL_NUMS: &[u64] = &[
+    9_223_372_036_854_775_807, 9_223_372_036_854_775_808, 4_294_967_295, 4_294_967_296, 4_294_967_297,
+    9_007_199_254_740_991, 9_007_199_254_740_992, 9_007_199_254_740_993, 999_999_999_999_999_999,
+    1_000_000_000_000_000_000, 9_999_999_999_999_999_999, 10_000_000_000_000_000_000, 18_446_744_073_709_551_614,
+    1_000_000, 65_535, 65_536, 255, 256, 127, 128, 100, 10,
+];
 const HYPHEN_IDS: &[&str] = &["-", "--", "---", "-1", "-0", "-a", "a-", "1-", "--1", "-01"];
 const BIG_DIGITS: &[&str] = &[
     "18446744073709551616",
@@ -62,17 +84,25 @@ pub fn gen_identifier(rng: &mut Rng) -> IdModel {
         0..=2 => IdModel::Num(0),
         3..=5 => IdModel::Num(rng.range(1, 20)),
         6 => IdModel::Num(rng.range(21, 100_000)),
+        7 if rng.coin() => IdModel::Num(*rng.pick(SPECIAL_NUMS)),
         7 => IdModel::Num(u64::MAX - rng.below(2)),
         8 => IdModel::Num(MAX_SAFE_INTEGER + rng.below(3)),
         9..=12 => IdModel::Alnum((*rng.pick(ALPHA_IDS)).to_string()),
-        13..=15 => IdModel::Alnum((*rng.pick(MIXED_IDS)).to_string()),
+        13 => IdModel::Alnum((*rng.pick(WORD_IDS)).to_string()),
+        14..=15 => IdModel::Alnum((*rng.pick(MIXED_IDS)).to_string()),
         16..=17 => IdModel::Alnum((*rng.pick(HYPHEN_IDS)).to_string()),
         18 if rng.below(3) == 0 => IdModel::Alnum((*rng.pick(NON_ASCII_IDS)).to_string()),
         18 => IdModel::Alnum((*rng.pick(BIG_DIGITS)).to_string()),
         _ => {
             // random identifier over the alphabet, with at least one non-digit
             let n = 1 + rng.usize_below(12);
-            const AB: &[u8] = b"0123456789abcxyzABCXYZ-";
+            const AB: &[u8] = b"0123456789abcdefghijklmnopqrstuvwxyzABCDEFGHIJKLMNOPQRSTUVWXYZ-";
+            // sometimes a long identifier, or one of exactly 19-21 characters
+            let n = match rng.below(12) {
+                0 => 19 + rng.usize_below(3),
+                1 => 30 + rng.usize_below(100),
+                _ => n,
+            };
             let mut s: String = (0..n).map(|_| *rng.pick(AB) as char).collect();
             if !canonical_alnum(&s) {
                 s.push('q');
@@ -463,6 +493,15 @@ pub fn gen_range_text(rng: &mut Rng) -> String {
     s
 }
 
+/// Ranges at the edges of the version order; operands of set operations are drawn from here now
+/// and then, and all pairs are run through the fault-free baseline by the corpus.
+pub const SPECIAL_RANGES: &[&str] = &[
+    "*", ">=0.0.0-0", "<0.0.0-0", ">=0.0.0", "<0.0.0", "<=0.0.0", ">0.0.0-0", ">0.0.0", "0.0.0", "0.0.0-0",
+    "<1.0.0", ">=1.0.0", "<=900719925474099", ">=900719925474099.900719925474099.900719925474099",
+    ">900719925474099.900719925474099.900719925474098", "<1.0.0-0", ">=1.0.0-0", "1.0.0 - 2.0.0-0",
+    "<0.0.1", ">=0.0.0-0 <0.0.0", "<0.0.0-0 || >=2.0.0",
+];
+
 pub fn gen_rsrc(rng: &mut Rng, depth: u32) -> RSrc {
     // rarely: the product of two families of nested intervals, i.e. a set-operation result with
     // hundreds of alternatives (more than either operand could have as parsed text)
@@ -485,6 +524,8 @@ pub fn gen_rsrc(rng: &mut Rng, depth: u32) -> RSrc {
         } else {
             RSrc::Difference(a, b)
         }
+    } else if rng.below(10) == 0 {
+        RSrc::Text((*rng.pick(SPECIAL_RANGES)).to_string())
     } else {
         RSrc::Text(gen_range_text(rng))
     }
